@@ -1,6 +1,7 @@
 """C16 -- affine charts, affine maps, subspace operations (C1, R1c, I1c, U1)."""
 from ..rules import chart_rules as R
 from ..rules import proj_rules as PR
+from ..rules import shape_rules as SH
 from ..rules.common import u1, n1
 
 P = R.PROJ
@@ -19,6 +20,7 @@ def run(ctx):
     ctx.do(R.rule_chart_slot)
     ctx.do(n1, ["geometry_tools/projective.py"])
     ctx.do(PR.rule_bm1)
+    ctx.do(SH.rule_sh4)
     ctx.do(u1, ENTRIES, min_functions=15)
     ctx.r.assume("affine maps, translations, intersections and eigenvectors "
                  "are numerical clauses and not decided")
